@@ -7,15 +7,19 @@ z3 = None
 
 
 def _convert_expr(e, variables_dict):
-    if isinstance(e, (bool, int)):
-        return e
+    if isinstance(e, bool):
+        return z3.BoolVal(e)
+    if isinstance(e, int):
+        return z3.IntVal(e)
     if not isinstance(e, Expr):
         raise TypeError()
     if isinstance(e, (BoolVar, IntVar)):
         return variables_dict[e.id]
     else:
         operands = list(map(lambda x: _convert_expr(x, variables_dict), e.operands))
-        if e.op == Op.NEG:
+        if e.op == Op.BOOL_CONSTANT or e.op == Op.INT_CONSTANT:
+            return operands[0]
+        elif e.op == Op.NEG:
             return -operands[0]
         elif e.op == Op.ADD:
             ret = operands[0]
